@@ -51,7 +51,8 @@ def case_text(case):
     lines.append("")
     for i in range(case["file_surfaces"]):
         num, shape, tr = case["surfaces"][i]
-        trs = f" {case['transforms'][tr]}" if tr is not None else ""
+        # a transform that is not in the file is given to the surface after reading (World.__init__)
+        trs = f" {case['transforms'][tr]}" if tr is not None and tr < case["file_transforms"] else ""
         lines.append(f"{num}{trs} pz {shape}.5")
     lines.append("")
     for i in range(case["file_materials"]):
@@ -135,6 +136,11 @@ class World:
                 self.pool["transform"].append(
                     make("transform", i - case["file_transforms"], lambda n=n, i=i: mp.data_from(f"tr{n} 0 0 {i}.5"),
                          lambda q: q.transforms, node_number, n))
+            for i in range(case["file_surfaces"]):
+                # a surface of the file that the user gave a transform made after reading (public setter)
+                tr = case["surfaces"][i][2]
+                if tr is not None and tr >= case["file_transforms"]:
+                    self.pool["surface"][i].transform = self.pool["transform"][tr]
             for i in range(case["file_surfaces"], len(case["surfaces"])):
                 num, shape, tr = case["surfaces"][i]
                 s = make("surface", i - case["file_surfaces"], lambda num=num, shape=shape: mp.surface_from(f"{num} PZ {shape}.5"),
